@@ -195,11 +195,11 @@ def plan(pid, tier):
         P.append(("STEP %s K=%d M=%d stale=%d pending=%d" % (s, K, M, S, Pn), layout.step_tasks(s, K, M, S, Pn), dict(base)))
     # deeper shapes of `simple` over a narrower value domain (the cost of `simple` is in the values: the bit loop of
     # select_best and the div/mod chains; the gap bookkeeping bugs are in the shapes)
-    # (thorough: the two deepest shapes, ~9 and ~11 min, are explored by the C01 check only; C13 keeps the quick ones)
+    # (thorough: the two deepest shapes take ~5 and ~11 min on the unchanged tree; C13 keeps the quick ones)
     if tier == "quick" or pid == "C13":
         narrow = [(2, 2, [1, 2], 6, 24), (3, 1, [1, 2], 6, 24)]
     else:
-        narrow = [(2, 2, [1, 2, 4], 8, 32), (3, 1, [1, 2, 4], 8, 32)] + ([(3, 2, [1, 2], 4, 16), (2, 3, [1, 2], 4, 16)] if pid == "C01" else [])
+        narrow = [(2, 2, [1, 2, 4], 8, 32), (3, 1, [1, 2, 4], 8, 32), (3, 2, [1, 2], 4, 16), (2, 3, [1, 2], 4, 16)]
     for (K, M, al, smax, omax) in narrow:
         P.append(("STEP simple K=%d M=%d narrow domain (alignments %s, sizes <= %d, offsets <= %d)" % (K, M, al, smax, omax),
                   layout.step_tasks("simple", K, M, 0, 0, aligns=al), dict(base, aligns=al, smax=smax, omax=omax)))
@@ -341,7 +341,9 @@ def run(pid, tier):
                 cands.setdefault((label, key), (task, part, model))
         # a counterexample candidate for this property is in hand: replay it rather than spend the budget
         # exploring a tree on which every path may now fork further
-        if any(any(part.startswith(p) for p in PREFIX[pid]) for (_, part, _) in cands.values()):
+        # (a path that merely consulted the environment is a weak candidate: its inputs were not chosen so that the
+        # environment matters — the pairwise queries later in the plan find such inputs; keep exploring)
+        if any(any(part.startswith(p) for p in PREFIX[pid]) and "consulted its environment" not in part for (_, part, _) in cands.values()):
             stopped_early = label
             break
     # ---- the invariant broke on some path: the induction no longer covers what follows such a state.
